@@ -1015,7 +1015,13 @@ Definition minit (progs : list (list op)) : machine :=
             test (entries of 70 KiB .. 4 MiB, harness/c08_huge.go) - kept for the replay, not read here:
             buffers of this model are byte lists without a capacity, so no operation of the model can
             depend on how large a recycled object once was; that the real pools agree is what the
-            oversize histories test, and what the regenerated facts say path by path (KDep, Hygiene.v)
+            oversize histories test, and what the regenerated facts say path by path (KDep, Hygiene.v);
+            a tenth and eleventh element (member * 100 + kind of entry, label) mark an entry through a
+            member of a long-lived LOGGER FAMILY with partial encoder callbacks (harness/c08_family.go:
+            the logger, its With / Named children, cores, encoder clones - all sharing one EncoderConfig
+            through a copied pointer) - kept for the replay, not read here: configurations of this model
+            are values; state reached through a shared pointer is the subject of Hygiene.v (sharedfact,
+            shared_sound) and of the facts regenerated from the source (Gen.PoolFacts.shared_facts)
      adv    the adversary's choices for the model run
      aprobe the observed probe, abstracted the same way
      act    (name n): what the probe's sinks did on OTHER loggers while they were inside Write
